@@ -104,10 +104,13 @@ pub fn run(ctx: &mut Ctx) {
             }
             requested.entry(NS.into()).or_default().push("not_held_element".into());
             if rng.gen_bool(0.5) { permitted.entry(NS.into()).or_default().push("not_held_element".into()); }
-            // keep at least one agreed element of the core namespace (the reader library reports only documents with a core namespace; see DESIGN, observation O-C01)
+            // the other sessions keep at least one agreed element of the core namespace
             let (kns, ke) = all_elems.iter().find(|(ns, _)| ns == NS).unwrap().clone();
-            if !requested.get(&kns).map(|v| v.contains(&ke)).unwrap_or(false) { requested.entry(kns.clone()).or_default().push(ke.clone()); }
-            if !permitted.get(&kns).map(|v| v.contains(&ke)).unwrap_or(false) { permitted.entry(kns.clone()).or_default().push(ke.clone()); }
+            // every third session agrees on NO element of the core namespace (AAMVA-only, or nothing at all)
+            let no_core = si % 3 == 2;
+            if no_core { permitted.remove(NS); }
+            if !no_core { if !requested.get(&kns).map(|v| v.contains(&ke)).unwrap_or(false) { requested.entry(kns.clone()).or_default().push(ke.clone()); }
+            if !permitted.get(&kns).map(|v| v.contains(&ke)).unwrap_or(false) { permitted.entry(kns.clone()).or_default().push(ke.clone()); } }
             let req_ns = req_namespaces(&requested).unwrap();
             // reader -> device
             let case = json!({"session": si, "round": round, "config": cfg_name, "digest": format!("{alg:?}"), "decoys": decoys, "anchor": with_anchor, "msg_hex": format!("{si}-{round}")});
@@ -136,7 +139,7 @@ pub fn run(ctx: &mut Ctx) {
             let perm: PermittedItems = [(MDL.to_string(), permitted.iter().map(|(ns, es)| (ns.clone(), es.clone())).collect())].into_iter().collect();
             device::SessionManager::prepare_response(dev, &items_request, perm);
             let mut n_docs = 0;
-            while let Some((_, payload)) = dev.get_next_signature_payload() { let sig: Signature = device_key.sign(payload); dev.submit_next_signature(sig.to_der().as_bytes().to_vec()).unwrap(); n_docs += 1; if n_docs > 5 { break; } }
+            while let Some((_, payload)) = dev.get_next_signature_payload() { let sig: Signature = device_key.sign(payload); dev.submit_next_signature(sig.to_bytes().to_vec()).unwrap(); n_docs += 1; if n_docs > 5 { break; } }
             docs_per_round.push(n_docs);
             let Some(resp) = dev.retrieve_response() else { ctx.emit.line("spec", "spec:response-ready", "spec.eq none some".into(), "true".into(), case); break };
             let out = rdr.handle_response(&resp);
